@@ -458,6 +458,11 @@ class TCPHiddenServiceEndpoint(object):
                 "'single_hop=' flag only makes sense for ephemeral onions"
             )
 
+        if version not in (None, 2, 3):
+            raise ValueError(
+                "Invalid version '{}' (must be 2 or 3)".format(version)
+            )
+
         # refuse keys the service creation would refuse anyway, before
         # listen() has bound anything
         if isinstance(private_key, str):
